@@ -87,6 +87,17 @@ class Impl:
         if o == "addsub":
             a, b = g("a"), g("b")
             return self.register(a + b if op["sign"] == 1 else a - b)
+        if o == "scalar":
+            import operator
+            a = g("a")
+            x = to_num(op["x"])
+            return self.register({"mul": operator.mul, "div": operator.truediv, "floordiv": operator.floordiv}[op["op"]](a, x))
+        if o == "batch":
+            from e3fp.fingerprint import fprint as fpm
+            fps = [self.objs[i] for i in op["objs"]]
+            w = None if op.get("weights") is None else [float(Fraction(x)) for x in op["weights"]]
+            r = (fpm.mean if op["mean"] else fpm.add)(fps, weights=w)
+            return None if r is None else self.register(r)
         raise ValueError("bad op " + o)
 
     def containers(self, i, o):
@@ -212,11 +223,15 @@ def gen_history(rng, nops):
         o = im.objs[i]
         kind = "bit" if o.__class__ is CLS["bit"] else ("count" if o.__class__ is CLS["count"] else "float")
         c = rng.choice(["new", "from_fp", "from_fp", "fold", "fold", "fold", "fold", "set_prop", "set_name", "set_level",
-                        "poke_idx", "poke_count", "set_counts", "setop", "addsub"])
+                        "poke_idx", "poke_count", "set_counts", "setop", "addsub", "scalar", "batch"])
         if c == "new":
             emit(new_op())
         elif c == "from_fp":
-            emit({"o": "from_fp", "kind": rng.choice([kind, kind] + KINDS), "src": i})
+            to = rng.choice([kind, kind] + KINDS)
+            if to == "count" and kind == "float" and any(v < 1 for v in o.counts.values()):
+                # int() of a count below 1 is 0: a stored zero count is outside the class invariant (counts > 0) the value model covers
+                to = "float"
+            emit({"o": "from_fp", "kind": to, "src": i})
         elif c == "fold":
             b = int(o.bits)
             cands = [b // (2 ** k) for k in range(0, 6) if b % (2 ** k) == 0 and b // (2 ** k) >= 1]
@@ -259,7 +274,7 @@ def gen_history(rng, nops):
             if kind == "bit":
                 continue
             keys = [int(k) for k in o.indices.tolist()]
-            emit({"o": "set_counts", "obj": i, "counts": [[k, gen_value(rng, rng.choice(["count", "float"]))] for k in keys]})
+            emit({"o": "set_counts", "obj": i, "counts": [[k, gen_value(rng, kind if kind == "count" else rng.choice(["count", "float"]))] for k in keys]})
         elif c == "setop":
             j = rng.randrange(n)
             p = im.objs[j]
@@ -267,6 +282,20 @@ def gen_history(rng, nops):
                 emit({"o": "setop", "op": rng.choice(["or", "and", "xor", "add", "sub"]), "a": i, "b": j})
             elif o.__class__ is not CLS["bit"] and p.__class__ is not CLS["bit"]:
                 emit({"o": "setop", "op": rng.choice(["or", "and", "xor"]), "a": i, "b": j})
+        elif c == "scalar":
+            if kind == "bit":
+                continue
+            sop = rng.choice(["mul", "div", "floordiv"])
+            emit({"o": "scalar", "op": sop, "a": i, "x": str(rng.choice([1, 2, 4, 8]) if sop == "div" else rng.randint(1, 9))})
+        elif c == "batch":
+            # fingerprints of one length (the batch functions take the length from the first): 1, 2 or 4 members, dyadic weights
+            same = [j for j, p in enumerate(im.objs) if int(p.bits) == int(o.bits)]
+            k = rng.choice([1, 2, 2, 4])
+            members = [i] + [rng.choice(same) for _ in range(k - 1)]
+            w = rng.choice([None, None, ["1"] * k, (["1/2", "3/2", "1", "1"] * 1)[:k] if k != 1 else ["2"]])
+            if w is not None and sum(Fraction(x) for x in w).numerator & (sum(Fraction(x) for x in w).numerator - 1):
+                w = ["1"] * k
+            emit({"o": "batch", "mean": rng.random() < 0.5, "objs": members, "weights": w})
         elif c == "addsub":
             j = rng.randrange(n)
             p = im.objs[j]
